@@ -35,7 +35,7 @@ def _freeze(v):
 
 def run(ctx, model):
     ctx.explanation = (
-        "Every method of Pregex that has an `is_path` parameter (20 on the pinned tree, discovered from the "
+        "Every method of Pregex that has an `is_path` parameter (19 public ones on the pinned tree, discovered from the "
         "signatures) is walked twice by the abstract interpreter over the abstract `re` layer: once with the path "
         "witness and is_path=True (the file reader is replaced by the table path-witness -> text-witness, its body is "
         "checked by R-READER) and once with the text witness and is_path=False, for every combination of the boolean "
@@ -44,7 +44,7 @@ def run(ctx, model):
         "(start - n_left vs 0) and (end + n_right vs len) and compares with the specified window.")
     ctx.assumptions += ["decoding behaviour of open() itself", "abstract matches stand for whatever re finds (C11)"]
     meths = MM.matching_methods(model)
-    ctx.floor("R-PATHSTATE", len(meths), 20, "methods with an is_path parameter")
+    ctx.floor("R-PATHSTATE", len(meths), 19, "public methods with an is_path parameter")
     for name, f in sorted(meths.items()):
         params = [p for p in f.params if p != "self"]
         domains = []
@@ -94,7 +94,10 @@ def run(ctx, model):
                                   f"{name}(text, is_path=False) tries to open {rt[2].extracted!r}", f.node.lineno, inp=inp)
 
     # ---------------- R-READER (semantic: how the path is opened and what is read from it)
-    rf = model.method(PRE, "Pregex", "__extract_text") if "_Pregex__extract_text" in model.pregex.methods else None
+    try:
+        rf = model.method(PRE, "Pregex", "__extract_text")
+    except AnalysisError:
+        rf = None        # no dedicated reader: the open() calls are attributed to the methods themselves
     for name in sorted(meths):
         f = meths[name]
         kw = {p: (PATH if p == "source" else True if p == "is_path" else 1 if p in ("n_left", "n_right") else "<repl>" if p == "repl"
